@@ -580,6 +580,29 @@ impl Adversary for Hostile {
                         *pnext = pnext.wrapping_add(1) & 0xFFFFF;
                     }
                     enc_data(fid, false, &dgs)
+                } else if self.focus == 7 {
+                    // one packet at the window base whose size is 52-100 % of the victim's limit:
+                    // full fragments in ascending order, one per frame, as a uflow sender emits
+                    // them - and the last one never
+                    let limit = match &plan.endpoints[victim].kind {
+                        EndpointKind::Hc { spec, .. } => spec.rx_alloc_limit,
+                        _ => 1_000_000,
+                    };
+                    let n_max = ((limit + 1447) / 1448).clamp(2, 65536);
+                    let n = (n_max * plan.param("growing_permille", 1000.0) as u64 / 1000).clamp(2, 65536);
+                    let fbase = self.seen[victim].rx_frame_base.or(self.seen[from].tx_frame).unwrap_or(0);
+                    let pbase = match probe {
+                        Probe::Hc(h) => h.rx_packet_base_id,
+                        _ => self.seen[victim].rx_packet_base.unwrap_or(0),
+                    };
+                    let fnext = self.flood_next.entry(victim).or_insert(fbase);
+                    let fid = *fnext;
+                    *fnext = fnext.wrapping_add(1);
+                    let p = *self.flood_next.entry(victim + 1000).or_insert(pbase);
+                    let knext = self.flood_next.entry(victim + 2000).or_insert(0);
+                    let k = (*knext as u64).min(n - 2);
+                    *knext += 1;
+                    enc_data(fid, false, &[RawDatagram { seq: p & 0xFFFFF, ch: 0, wlead: 0, clead: 0, frag: k as u16, last: (n - 1) as u16, data: vec![0x5A; 1448], enc: 2 }])
                 } else if self.focus == 1 && self.rng.chance(0.85) {
                     let mut view = self.seen[victim].clone();
                     if let Some(p) = self.seen[from].tx_packet {
